@@ -97,7 +97,7 @@ def r2(run):
     run.touch(sb)
     es = emits(run, sb)
     starts = [c for (s, c) in es if s == "start"]
-    threads = q.live_calls(sb, C.THREAD_SPAWN)
+    threads = q.live_calls(sb, *C.THREAD_SPAWNS)
     run.exact("`start` emissions in spawn", len(starts), 1, sb.sp)
     run.exact("worker threads created by spawn", len(threads), 1, sb.sp)
     if starts and threads:
